@@ -306,6 +306,7 @@ def check_supplied_normalization(ctx, F, b, role_name):
     ev, paths = rules.evaluate(b)
     n_dep = 0
     verdicts = []
+    tolerant_sites = []
     for r in paths or []:
         if r.end != 'return' or r.ret is None or rules.ret_shape(r.ret)[0] != 'Ok':
             continue
@@ -314,6 +315,7 @@ def check_supplied_normalization(ctx, F, b, role_name):
         n_dep += 1
         related = False
         in_closure = False
+        tolerant = None
         for t, v, _ in r.preds:
             for y in sym.subterms(t):
                 if isinstance(y, tuple) and y and y[0] == 'bin' and y[1].split('.')[0] in ORDER_OPS:
@@ -321,9 +323,21 @@ def check_supplied_normalization(ctx, F, b, role_name):
                     d_has = sym.contains(y[2], is_data), sym.contains(y[3], is_data)
                     if (a_has[0] and d_has[1]) or (a_has[1] and d_has[0]):
                         related = True
+                        # the comparison must be against the table's sum itself: a sum scaled *down* (`sum * (1 - eps)`,
+                        # a "rounding tolerance") again admits values below the sum
+                        data_side = y[3] if a_has[0] else y[2]
+                        if data_side[0] == 'bin' and data_side[1].split('.')[0] == 'Mul':
+                            for fac in (data_side[2], data_side[3]):
+                                if fac[0] == 'bin' and fac[1].split('.')[0] == 'Sub' and fac[2][0] == 'k' and fac[2][1] == 'one' and not sym.contains(fac, is_data):
+                                    tolerant = sym.show(data_side)[:90]
                 if isinstance(y, tuple) and y and y[0] == 'call' and any(isinstance(a, tuple) and a and a[0] == 'agg' and isinstance(a[1], tuple) and a[1][0] == 'closure' and sym.contains(a, is_arg) for a in y[2]):
                     in_closure = True
+        if tolerant:
+            tolerant_sites.append(tolerant)
         verdicts.append('ok' if related else ('unres' if in_closure else 'bad'))
+    if tolerant_sites:
+        return ctx.bad('R4', role, b.defpath, 'the supplied normalization is compared with `%s`, a value *below* the sum of the table: a normalization one or two ulp under the sum is accepted again, and for tables with a negligible tail '
+                       'the last cumulative reaches or passes 1 << PRECISION (zero or negative probability for the last symbol)' % tolerant_sites[0], key=key, loc=rules.loc(b))
     if not n_dep:
         return ctx.ok('R4', role, b.defpath, 'no accepting path depends on the supplied value', key=key)
     if 'bad' in verdicts:
